@@ -209,6 +209,8 @@ where
     fn drop(&mut self) {
         if !self.committed {
             // Revert: Remove our intent from pending_intents
+            #[cfg(feature = "verif")]
+            crate::verif::point("intent_drop.intents", crate::verif::WANT_INTENTS);
             let mut intents = self.index.pending_intents.lock();
 
             if let Some(current_hash) = intents.get(&self.key)
@@ -269,7 +271,11 @@ where
     pub fn checkpoint(&self, reason: CheckpointReason) -> Result<(), IndexError> {
         tracing::info!(?reason, "Starting checkpoint operation.");
 
+        #[cfg(feature = "verif")]
+        crate::verif::point("checkpoint.state_w", crate::verif::WANT_STATE_W);
         let mut snapshot = self.state.write();
+        #[cfg(feature = "verif")]
+        crate::verif::point("checkpoint.wal", crate::verif::WANT_WAL);
         let mut wal_guard = self.wal.lock();
 
         self.checkpoint_inner(reason, &mut wal_guard, &mut *snapshot)
@@ -280,6 +286,8 @@ where
         key: K,
         meta: IntentMeta,
     ) -> Result<IntentGuard<'_, K>, IndexError> {
+        #[cfg(feature = "verif")]
+        crate::verif::point("register_intent.intents", crate::verif::WANT_INTENTS);
         let mut intents = self.pending_intents.lock();
 
         // Check if there was a previous intent for this key
@@ -306,16 +314,24 @@ where
         delete_fn: &crate::types::DeleteBlobCallFn,
     ) -> Result<(), IndexError> {
         let logical_op = WalOp::Put { key: key.clone(), hash, size };
+        #[cfg(feature = "verif")]
+        crate::verif::point("apply_put.intents", crate::verif::WANT_INTENTS);
         let mut intents = self.pending_intents.lock();
 
         let (mut unreferenced_from_op, rolled_over) = {
+            #[cfg(feature = "verif")]
+            crate::verif::point("apply_put.state_w", crate::verif::WANT_STATE_W);
             let mut state = self.state.write();
+            #[cfg(feature = "verif")]
+            crate::verif::point("apply_put.wal", crate::verif::WANT_WAL);
             let mut wal = self.wal.lock();
             let (hashes, _append_info, rolled) =
                 Self::apply_wal_op_unsafe(&mut state, &mut wal, &logical_op)?;
             (hashes, rolled)
         };
 
+        #[cfg(feature = "verif")]
+        crate::verif::point("apply_put.applied", crate::verif::WANT_NONE);
         intents.remove(&key);
 
         // Filter out any unreferenced hashes that are still referenced by other intents
@@ -324,13 +340,21 @@ where
 
         // Delete blobs BEFORE any checkpoint
         if !unreferenced_from_op.is_empty() {
+            #[cfg(feature = "verif")]
+            crate::verif::point("apply_put.delete", crate::verif::WANT_NONE);
             delete_fn(&unreferenced_from_op).map_err(|e| IndexError::BlobDeletion { source: e })?;
         }
 
         drop(intents);
+        #[cfg(feature = "verif")]
+        crate::verif::point("apply_put.intents_released", crate::verif::WANT_NONE);
 
         if rolled_over {
+            #[cfg(feature = "verif")]
+            crate::verif::point("apply_put.rollover_state_w", crate::verif::WANT_STATE_W);
             let mut state = self.state.write();
+            #[cfg(feature = "verif")]
+            crate::verif::point("apply_put.rollover_wal", crate::verif::WANT_WAL);
             let mut wal = self.wal.lock();
             self.checkpoint_inner(CheckpointReason::SegmentRollover, &mut wal, &mut state)?;
         }
@@ -344,29 +368,45 @@ where
         delete_fn: &crate::types::DeleteBlobCallFn,
     ) -> Result<(), IndexError> {
         let logical_op = WalOp::Remove { keys };
+        #[cfg(feature = "verif")]
+        crate::verif::point("apply_remove.intents", crate::verif::WANT_INTENTS);
         let intents = self.pending_intents.lock();
 
         let (mut unreferenced_from_op, rolled_over) = {
+            #[cfg(feature = "verif")]
+            crate::verif::point("apply_remove.state_w", crate::verif::WANT_STATE_W);
             let mut state = self.state.write();
+            #[cfg(feature = "verif")]
+            crate::verif::point("apply_remove.wal", crate::verif::WANT_WAL);
             let mut wal = self.wal.lock();
             let (hashes, _append_info, rolled) =
                 Self::apply_wal_op_unsafe(&mut state, &mut wal, &logical_op)?;
             (hashes, rolled)
         };
 
+        #[cfg(feature = "verif")]
+        crate::verif::point("apply_remove.applied", crate::verif::WANT_NONE);
         // Remove any unreferenced hashes that are still referenced by intents
         unreferenced_from_op
             .retain(|hash| !intents.values().any(|intent_hash| intent_hash == hash));
 
         // Delete blobs BEFORE any checkpoint
         if !unreferenced_from_op.is_empty() {
+            #[cfg(feature = "verif")]
+            crate::verif::point("apply_remove.delete", crate::verif::WANT_NONE);
             delete_fn(&unreferenced_from_op).map_err(|e| IndexError::BlobDeletion { source: e })?;
         }
 
         drop(intents);
+        #[cfg(feature = "verif")]
+        crate::verif::point("apply_remove.intents_released", crate::verif::WANT_NONE);
 
         if rolled_over {
+            #[cfg(feature = "verif")]
+            crate::verif::point("apply_remove.rollover_state_w", crate::verif::WANT_STATE_W);
             let mut state = self.state.write();
+            #[cfg(feature = "verif")]
+            crate::verif::point("apply_remove.rollover_wal", crate::verif::WANT_WAL);
             let mut wal = self.wal.lock();
             self.checkpoint_inner(CheckpointReason::SegmentRollover, &mut wal, &mut state)?;
         }
@@ -440,6 +480,8 @@ where
 
 impl<K> Index<K> {
     pub fn read_state(&self) -> IndexReadGuard<'_, K> {
+        #[cfg(feature = "verif")]
+        crate::verif::point("read_state.state_r", crate::verif::WANT_STATE_R);
         IndexReadGuard { inner: self.state.read() }
     }
 }
